@@ -733,6 +733,53 @@ static void run_cmp(int maxlen, const std::string &job)
     vx::done(true, "all pairs");
 }
 
+// every byte value once: append / pop (both variants), one-byte trim sets and single-byte comparisons.  The explorations use a
+// four-letter alphabet; this sweep makes sure no other byte value (0xFF looks like the failure value ~0 of getc when plain char is
+// signed; values >= 0x80 compare as negative chars) is special.
+static void byte_sweep(const std::string &job)
+{
+    for (int b = 0; b < 256; ++b)
+    {
+        vx::mark("byte sweep", (uint64_t)b);
+        std::string why;
+        a_str *s = a_str_new();
+        a_str_catn(s, "ab", 2);
+        if (a_str_catc(s, b) != b && a_str_catc(s, b) != (int)(char)b) { /* the return value is the byte as int or as char */ }
+        if (a_str_len(s) != 3 || (unsigned char)a_str_ptr(s)[2] != b || a_str_ptr(s)[3] != 0) { why = "catc did not append the byte and a NUL"; }
+        int r = a_str_getc(s);
+        if (why.empty() && ((unsigned char)r != b || a_str_len(s) != 2 || memcmp(a_str_ptr(s), "ab", 2) != 0)) { why = "getc did not pop the byte"; }
+        if (why.empty() && a_str_ptr(s)[2] != 0) { why = "getc (terminating) did not leave a NUL after the remaining content"; }
+        a_str_catc_(s, b);
+        if (why.empty() && (a_str_len(s) != 3 || (unsigned char)a_str_ptr(s)[2] != b)) { why = "catc_ did not append the byte"; }
+        r = a_str_getc_(s);
+        if (why.empty() && ((unsigned char)r != b || a_str_len(s) != 2)) { why = "getc_ did not pop the byte"; }
+        // one-byte trim set
+        char set[1] = {(char)b};
+        a_str_setn_(s, 0);
+        a_str_catc(s, b); a_str_catc(s, b == 'x' ? 'y' : 'x'); a_str_catc(s, b);
+        a_str_trim(s, set, 1);
+        if (why.empty() && (a_str_len(s) != 1 || a_str_ptr(s)[0] != (b == 'x' ? 'y' : 'x') || a_str_ptr(s)[1] != 0)) { why = "trim with the one-byte set did not strip the byte on both sides"; }
+        // comparison with the byte whose top bit is flipped
+        a_str *t = a_str_new();
+        a_str_setn_(s, 0);
+        a_str_catc(s, b);
+        a_str_catc(t, b ^ 0x80);
+        int c = a_str_cmp(s, t);
+        if (why.empty() && !((b < (b ^ 0x80)) ? c < 0 : c > 0)) { why = "a_str_cmp does not order the byte against the one with its top bit flipped as unsigned bytes"; }
+        a_str_die(t);
+        a_str_die(s);
+        if (why.empty() && !shim::check()) { why = shim::st().error; }
+        if (!why.empty())
+        {
+            char hex[8];
+            snprintf(hex, sizeof hex, "0x%02X", b);
+            vx::viol(std::string("str|byte-sweep|") + (why.find("getc") != std::string::npos ? "getc" : why.find("catc") != std::string::npos ? "catc" : why.find("trim") != std::string::npos ? "trim" : why.find("cmp") != std::string::npos ? "cmp" : "memory"),
+                     std::string("byte ") + hex + ": " + why, "{\"job\":" + vx::jstr(job) + ",\"byte\":" + std::to_string(b) + "}");
+            shim::reset();
+        }
+    }
+}
+
 int main(int argc, char **argv)
 {
     vx::Args args(argc, argv);
@@ -749,6 +796,7 @@ int main(int argc, char **argv)
     if (args.has("replay-raw")) { return xs::replay_main(h, args.get("replay-raw")); }
     return vx::run_contained([&] {
         if (mode == "cmp") { run_cmp(h.N, h.job); return; }
+        if (mode == "rich" && !h.faults) { byte_sweep(h.job); shim::reset(); }
         xs::Explorer<Harness> ex(h);
         ex.job = h.job;
         ex.run();
